@@ -219,8 +219,11 @@ func init() {
 		Runs: []Run{
 			{Pkg: "fasthttp", Func: "vhC02UnreadBody", Quick: map[string]int{"big": 1}, Thorough: map[string]int{"big": 1}},
 			{Pkg: "fasthttp", Func: "vhC02StreamAcrossConns"},
+			{Pkg: "fasthttp", Func: "vhC02StreamedTail"},
+			{Pkg: "fasthttp", Func: "vhC02StreamedBadTrailer"},
 		},
 		Assume: []string{serveAssume,
+			"streamed tails: with StreamRequestBody a fixed-length body of 8292 bytes whose last 100 bytes arrive in the same read as a pipelined 6 kB POST whose body spells a request exactly where a refilled 4096-byte reader would resume (with/without Expect: 100-continue and ReduceMemoryUsage); a streamed chunked body whose trailer section is malformed and spells a request",
 			"input family: POST /first whose body spells a complete request (31 bytes, or 9031 bytes with the request-shaped bytes after the 8 KiB prefetch), fixed-length or chunked, with/without Expect: 100-continue (accepted or rejected by ContinueHandler), followed by GET /second in the same or the next segment; handler reads none, 5 bytes or all of the stream; StreamRequestBody on/off; the inputs are choices over this grammar (no free symbolic bytes), all decided on the symbolic executor",
 		},
 	})
